@@ -132,7 +132,7 @@ def main(argv):
     cases = 0
 
     def fail(oid, witness, observed):
-        if sum(1 for f in failures if f["obligation"] == oid) < 3:
+        if sum(1 for f in failures if f["obligation"] == oid) < 60:
             failures.append(dict(obligation=oid, witness=witness, observed=observed))
 
     # ---------------------------------------------------------------- free form, one statement per layout
